@@ -458,7 +458,7 @@ def strip_prefix(text):
                 out_start = t.end
             continue
         break
-    return text[out_start:].lstrip("\n"), dropped
+    return text[out_start:].lstrip("\n").lstrip(" \t"), dropped
 
 
 def split_fn(text):
